@@ -413,13 +413,16 @@ func init() {
 			{Entry: "VerifC18Ints", Covers: []string{"C18.ints.end"}, DiffRuns: 20},
 			{Entry: "VerifC18Strings", Params: map[string]int{"L": 3}, Covers: []string{"C18.strings.end"}, DiffRuns: 20},
 			{Entry: "VerifC18LPM", Params: map[string]int{"LPMBYTES": 3}, Covers: []string{"C18.lpm.end", "C18.lpm.partial-byte"}, DiffRuns: 20},
+			// primaries of 255..256 bytes (first/last byte symbolic, escapes lengthen them): the 2-byte length suffix crosses 255/256
+			{Entry: "VerifC18Long", Params: map[string]int{"LO": 255, "HI": 256}, Covers: []string{"C18.long.high-byte", "C18.long.low-byte-only", "C18.long.end"}, DiffRuns: 10},
 		},
 		Thorough: []HarnessRun{
 			{Entry: "VerifC18NonUnique", Params: map[string]int{"L": 3, "PEMPTY": 1}, Covers: []string{"C18.escape-used", "C18.nonunique.end"}, DiffRuns: 40},
 			{Entry: "VerifC18Strings", Params: map[string]int{"L": 4}, Covers: []string{"C18.strings.end"}, DiffRuns: 20},
 			{Entry: "VerifC18LPM", Params: map[string]int{"LPMBYTES": 4}, Covers: []string{"C18.lpm.end", "C18.lpm.partial-byte"}, DiffRuns: 20},
+			{Entry: "VerifC18Long", Params: map[string]int{"LO": 254, "HI": 257}, Covers: []string{"C18.long.high-byte", "C18.long.low-byte-only", "C18.long.end"}, DiffRuns: 10},
 		},
-		Outside: []string{"outside: secondary/primary keys longer than the L bound; encoded primaries >= 256 bytes (length suffix high byte); netip-typed encoders (net/netip internals are not executed)"},
+		Outside: []string{"outside: secondary/primary keys longer than the L bound; primaries other than the 254..257-byte family of VerifC18Long (first and last byte symbolic, the rest constant) beyond L bytes; encoded primaries >= 64 KiB; netip-typed encoders (net/netip internals are not executed)"},
 	})
 }
 
@@ -470,9 +473,12 @@ func init() {
 	// operation of the same transaction below "ab" must still close the Prefix("ab") channel handed out earlier
 	merge7 := HarnessRun{Entry: "VerifC12Watch", Params: map[string]int{"PRESET": 7, "N1": 0, "N2": 2, "L": 3, "ALPHA": 1, "WL": 2, "KL1": 1, "FIRSTDEL": 1},
 		Covers: []string{"C12.committed", "C12.abandoned", "C12.end"}, DiffRuns: 20}
+	// a channel taken with Txn.Get inside the later transaction, between its two operations
+	txnget := HarnessRun{Entry: "VerifC12Watch", Params: map[string]int{"N1": 1, "N2": 2, "L": 1, "ROOTONLY": 0, "MODIFYWATCH": 0, "TXNGET": 1, "WL": 0},
+		Covers: []string{"C12.committed", "C12.txnget", "C12.end"}, DiffRuns: 20}
 	reg(&CheckSpec{
 		ID: "C12", PkgDir: "part",
-		Quick:    []HarnessRun{w(1, 2, 1, 0, 0), w(1, 2, 1, 1, 0), w(2, 1, 1, 0, 1), w(1, 1, 2, 0, 0), w(1, 1, 2, 1, 0), preset(1, 1), preset(2, 1), preset(4, 1), preset(5, 1), preset(6, 1), merge7},
+		Quick:    []HarnessRun{w(1, 2, 1, 0, 0), w(1, 2, 1, 1, 0), txnget, w(2, 1, 1, 0, 1), w(1, 1, 2, 0, 0), w(1, 1, 2, 1, 0), preset(1, 1), preset(2, 1), preset(4, 1), preset(5, 1), preset(6, 1), merge7},
 		Thorough: []HarnessRun{preset(3, 1), w(1, 2, 1, 1, 1), w(2, 1, 1, 1, 0)},
 		Outside:  []string{"pre-state shapes: PRESET 1-7 are concrete 3-6 key trees (keys that are prefixes of one another, a node with 5 children, an inner node with a value and a single inner-node child); in the PRESET 7 run symbolic key bytes range over {a..e,x}, the first operation is a delete of a key of at most one byte and watched keys have at most two bytes", "outside: trees deeper than the keys of length <= L allow; more than N1 pre-state keys and N2 later operations; channels of write-transaction queries"},
 	})
@@ -557,18 +563,22 @@ func init() {
 	c03 := func(n, l, ops, focus, diff int) HarnessRun {
 		return HarnessRun{Entry: "VerifC03Driver", Params: map[string]int{"N": n, "L": l, "OPS": ops, "FOCUS": focus}, Covers: []string{"C03.end"}, DiffRuns: diff}
 	}
+	c03f := func(n, l, ops, focus, first, diff int) HarnessRun {
+		return HarnessRun{Entry: "VerifC03Driver", Params: map[string]int{"N": n, "L": l, "OPS": ops, "FOCUS": focus, "FIRSTOP": first}, Covers: []string{"C03.end", "C03.modify-keeps-contents"}, DiffRuns: diff}
+	}
 	// OPS bits: 1 insert 2 delete 4 CAS 8 CAD 16 modify 32 commit 64 abort 128 deleteall 256 insertwatch 512 wrong-table 1024 closed-txn
 	all := (1 << 11) - 1
 	core := 1 | 2 | 4 | 8 | 32 | 64
 	reg(&CheckSpec{
 		ID: "C03", PkgDir: "statedb",
-		Quick:    []HarnessRun{c03(2, 1, all, 3, 40), c03(3, 1, core, 3, 40)},
+		// first an insert, then two of CAS | CAD | modify: a revision guard read before a Modify must be rejected after it
+		Quick:    []HarnessRun{c03(2, 1, all, 3, 40), c03(3, 1, core, 3, 40), c03f(3, 1, 4|8|16, 3, 1, 20)},
 		Thorough: []HarnessRun{c03(2, 2, all, 3, 40)},
 		Outside:  []string{"outside: more than N operations per history, keys longer than L, primary keys >= 64 KiB; one table plus one foreign table; for a finished transaction only Insert/Modify/Delete/CompareAndSwap/CompareAndDelete are asserted to return ErrTransactionClosed (as the statement names them)"},
 	})
 	reg(&CheckSpec{
 		ID: "C09", PkgDir: "statedb",
-		Quick: []HarnessRun{c03(2, 1, all, 9, 40), c03(3, 1, core, 9, 40),
+		Quick: []HarnessRun{c03(2, 1, all, 9, 40), c03(3, 1, core, 9, 40), c03f(3, 1, 4|8|16, 9, 1, 20),
 			// concurrent writers on other tables (VM threads scheduled at lock acquisitions)
 			{Entry: "VerifC10Threads", Params: map[string]int{"T": 2, "LISTMAX": 3, "KINDMAX": 0}, Covers: []string{"C10.end"}, NoNative: true, Preempt: 1, Deadlock: true}},
 		Thorough: []HarnessRun{c03(2, 2, all, 9, 40)},
@@ -662,6 +672,8 @@ func init() {
 			{Entry: "VerifC05Serial", Covers: []string{"C05.disjoint-commit", "C05.blocked", "C05.end"}, NoNative: true, Deadlock: true},
 			// collector against a writer that holds the table during the scan (a collector that keeps a table locked deadlocks the next writer)
 			c08held,
+			// three tables, the collector woken while a writer holds one of them: transactions on the other tables must be granted
+			{Entry: "VerifC10Collector", Covers: []string{"C10.collector.garbage", "C10.collector.other-table-granted", "C10.collector.end"}, NoNative: true, Preempt: 1, Deadlock: true},
 		},
 		Thorough: []HarnessRun{
 			{Entry: "VerifC08Graveyard", Params: map[string]int{"N": 2, "NIT": 1}, Covers: []string{"C08.end"}, NoNative: true, Preempt: 1, Deadlock: true},
@@ -722,9 +734,15 @@ func init() {
 	}
 	reg(&CheckSpec{
 		ID: "C06", PkgDir: "statedb",
-		Quick:    []HarnessRun{c06(2, 1), c02(1), c06ps(1, 1, 2), c06ps(2, 1, 2)},
-		Thorough: []HarnessRun{c06ps(1, 2, 1), c06ps(2, 2, 1), c02(2)},
-		Outside: []string{"outside: channels obtained from write-transaction queries; a waiting goroutine is modelled by the sync observer (every point at which it could wake up relative to the committer's synchronisation operations); pre-state of two objects; more than N later writes; nothing is asserted about channels that close although the result did not change (allowed)"},
+		// WTXNQ=1: channels of queries made through the write transaction itself after its first write (one query kind per path)
+		Quick: []HarnessRun{c06(2, 1), c02(1), c06ps(1, 1, 2), c06ps(2, 1, 2),
+			{Entry: "VerifC06Watch", Params: map[string]int{"N": 2, "L": 1, "WTXNQ": 1, "NOMOVE": 1}, Covers: []string{"C06.wtxn-queries", "C06.committed", "C06.aborted", "C06.end"}, NoNative: true},
+			{Entry: "VerifKFWtxnGetWatch"}},
+		Thorough: []HarnessRun{c06ps(1, 2, 1), c06ps(2, 2, 1), c02(2),
+			{Entry: "VerifC06Watch", Params: map[string]int{"N": 2, "L": 1, "WTXNQ": 1}, Covers: []string{"C06.wtxn-queries", "C06.end"}, NoNative: true},
+			{Entry: "VerifC06Watch", Params: map[string]int{"N": 2, "L": 2, "WTXNQ": 1, "PRESET": 2, "KEYFAM": 1}, Covers: []string{"C06.wtxn-queries", "C06.end"}, NoNative: true}},
+		Known: []KnownProbe{{ID: "KF-wtxn-get-watch", Entry: "VerifKFWtxnGetWatch"}},
+		Outside: []string{"write-transaction queries: one query (Get/List/Prefix/LowerBound/All on the primary index, List on the non-unique and LPM indexes) made after the transaction's first write, its channel must be closed by Commit if a later write of the same transaction changed its result and never by Abort", "outside: a waiting goroutine is modelled by the sync observer (every point at which it could wake up relative to the committer's synchronisation operations); pre-state of two objects; more than N later writes; nothing is asserted about channels that close although the result did not change (allowed)"},
 	})
 }
 
